@@ -33,7 +33,20 @@ def rand_axis(rng, pool, lo=1, hi=5):
     return rng.sample(pool, k)
 
 
+class OracleFailure(Exception):
+    pass
+
+
 def make_ranges(rng):
+    try:
+        return _make_ranges(rng)
+    except OracleFailure:
+        raise
+    except Exception as ex:
+        raise OracleFailure('a requested parameter set cannot be built directly: %s: %s' % (type(ex).__name__, ex))
+
+
+def _make_ranges(rng):
     from panqec.config import CODES
     dec = rng.choice(list(DEC_TABLE))
     allowed, dparams = DEC_TABLE[dec]
@@ -81,7 +94,9 @@ def make_ranges(rng):
     npool = [{'r_x': 1, 'r_y': 0, 'r_z': 0}, {'r_x': 0, 'r_y': 0, 'r_z': 1}, {'r_x': 0.25, 'r_y': 0.25, 'r_z': 0.5},
              {'r_x': 0.125, 'r_y': 0.5, 'r_z': 0.375}, [0.5, 0.25, 0.25], [0.0, 1.0, 0.0],
              # decimal fractions whose float sum is not exactly 1
-             {'r_x': 0.6, 'r_y': 0.3, 'r_z': 0.1}, [0.7, 0.2, 0.1]]
+             {'r_x': 0.6, 'r_y': 0.3, 'r_z': 0.1}, [0.7, 0.2, 0.1],
+             # typed to six decimals: the sum is 0.999999
+             {'r_x': 0.333333, 'r_y': 0.333333, 'r_z': 0.333333}, [0.00495, 0.00495, 0.990099]]
     if dnames:
         npool.append({'r_x': 0.25, 'r_y': 0.25, 'r_z': 0.5, 'deformation_name': dnames[0]})
         npool.append({'r_x': 0, 'r_y': 0, 'r_z': 1, 'deformation_name': dnames[-1]})
@@ -123,23 +138,27 @@ def main():
         for i in range(nspec):
             kind = rng.choice(['ranges', 'ranges', 'list', 'runs'])
             parts = []
-            if kind == 'ranges':
-                r, ax = make_ranges(rng)
-                spec = {'ranges': r}
-                parts = [ax]
-            elif kind == 'list':
-                spec = {'ranges': []}
-                for _ in range(rng.randint(1, 3)):
+            try:
+                if kind == 'ranges':
                     r, ax = make_ranges(rng)
-                    spec['ranges'].append(r)
-                    parts.append(ax)
-            else:
-                r, ax = make_ranges(rng)
-                runs = expand_input_ranges(json.loads(json.dumps(r)))
-                rng.shuffle(runs)
-                runs = runs[:rng.randint(1, min(6, len(runs)))]
-                spec = {'runs': runs}
-                parts = None
+                    spec = {'ranges': r}
+                    parts = [ax]
+                elif kind == 'list':
+                    spec = {'ranges': []}
+                    for _ in range(rng.randint(1, 3)):
+                        r, ax = make_ranges(rng)
+                        spec['ranges'].append(r)
+                        parts.append(ax)
+                else:
+                    r, ax = make_ranges(rng)
+                    runs = expand_input_ranges(json.loads(json.dumps(r)))
+                    rng.shuffle(runs)
+                    runs = runs[:rng.randint(1, min(6, len(runs)))]
+                    spec = {'runs': runs}
+                    parts = None
+            except OracleFailure as ex:
+                res['specs'].append({'kind': kind, 'spec': {}, 'axes': None, 'error': str(ex)})
+                continue
             rec = {'kind': kind, 'spec': json.loads(json.dumps(spec)), 'axes': parts}
             try:
                 with contextlib.redirect_stdout(io.StringIO()):
